@@ -430,6 +430,13 @@ def replay(path):
     tmpdir = tempfile.mkdtemp(prefix="verif_c13_")
     try:
         m = QueryModel(tmpdir, 9, rp.get("tier") == "thorough")
+        ex = rp.get("example")
+        if ex:      # re-evaluate exactly the recorded request on the store reached by the history
+            def tup(x):
+                return tuple(tup(v) for v in x) if isinstance(x, list) else x
+            one = [(tuple(ex.get("label", ["replay"])), tup(ex["types"]), tup(ex["filter"]) if ex["filter"] else None,
+                    tup(ex["order"]) if ex["order"] else None)]
+            m.lat_full = m.lat_red = one
         w = m.init()
         bad = []
         for ev in rp["history"]:
@@ -437,6 +444,8 @@ def replay(path):
             m.apply(w, tuple(ev))
             bad = m.check(w, ev, None, [])
             print(ev, "->", [(b["kind"], b.get("backend"), b.get("cases")) for b in bad] or "ok")
+        for b in bad:
+            print(json.dumps(b, default=repr)[:700])
         return 1 if bad else 0
     finally:
         shutil.rmtree(tmpdir, ignore_errors=True)
